@@ -2,8 +2,8 @@
 CONSTANTS
  Docs = {"d1", "d2"}
  Mode = "conc"
- MaxEdits = 100000
- MaxReqs = 3000
+ MaxEdits = 1000
+ MaxReqs = 2000
  MaxInFlight = 16
  ReqKinds = {"plain", "conv"}
  QueryOutcomes = {"ok", "err"}
